@@ -276,7 +276,7 @@ class Lin:
         return st['m'].get(k, {('M', k): 1}), {('M', k): 1}
 
 
-def check(rep, side, floor, off, pattern):
+def check(rep, side, floor, off, pattern, icf=None):
     """side: 'DEFLATE' (struct isal_zstream in rdi) or 'INFLATE' (struct inflate_state in rdi)"""
     import asmdb
     R = rep.rule('R-ACCT-BALANCE-ASM-' + side, 'asm kernels that keep the stream counters in registers: at every return, total_X - next_X and total_X + avail_X (next_X + avail_X where there is no total) '
@@ -294,6 +294,11 @@ def check(rep, side, floor, off, pattern):
                 return canon({'rdi@entry': 1, **({1: o} if o else {})})
             groups = [(key(off['next_in']), key(off['avail_in']), key(off['total_in']) if 'total_in' in off else None),
                       (key(off['next_out']), key(off['avail_out']), key(off['total_out']) if 'total_out' in off else None)]
+            icf_keys = None
+            if icf and '_icf_' in fn:
+                lb = ('M', key(icf['level_buf']))
+                icf_keys = (canon({lb: 1, 1: icf['icf_buf_next']}), canon({lb: 1, 1: icf['icf_buf_avail_out']}))
+                groups.append((icf_keys[0], icf_keys[1], None))
             L = Lin(u, f, groups).run()
             if not L.rets:
                 raise AnalysisBroken('asmlin: %s has no reachable ret' % fn)
@@ -309,6 +314,13 @@ def check(rep, side, floor, off, pattern):
                         R.instance()
                         R.check(not form, '%s: %s' % (un, u.where(ri, f)), '%s: at this return %s differs from its entry value by %s: the caller gets counters that no longer describe its buffer' % (fn, name, fmt(form)),
                                 key='R-ACCT-ASM|%s|%#x|%s' % (fn, ri.addr - f.entry, name), sample='%s: %s preserved' % (fn, name) if d == 'in' else None)
+                if icf_keys:
+                    vN = st['m'].get(icf_keys[0], {('M', icf_keys[0]): 1})
+                    vA = st['m'].get(icf_keys[1], {('M', icf_keys[1]): 1})
+                    form = add(add(vN, vA), add({('M', icf_keys[0]): 1}, {('M', icf_keys[1]): 1}), -1)
+                    R.instance()
+                    R.check(not form, '%s: %s' % (un, u.where(ri, f)), '%s: at this return level_buf->icf_buf_next + icf_buf_avail_out differs from its entry value by %s: the token buffer bookkeeping no longer describes the buffer'
+                            % (fn, fmt(form)), key='R-ACCT-ASM|%s|%#x|icf' % (fn, ri.addr - f.entry), sample='%s: icf_buf_next + icf_buf_avail_out preserved' % fn)
     if n == 0:
         raise AnalysisBroken('asmlin: no kernel matches %s' % pattern)
     R.notes.append('%d kernels' % n)
